@@ -642,7 +642,6 @@ Proof.
   apply latest_spec_at; auto.
 Qed.
 
-(** without a scalar field no scalar is ever read and the velocity path is unchanged *)
 (** T4 *)
 Lemma reads_from_right_file raw D hs n :
   nodupb (map fstep raw) = true -> readable raw D = true -> covers raw n = true -> 0 <= n ->
